@@ -416,6 +416,42 @@ fn main() {
             check_pattern(t, p, &names);
         });
     }
+    // padded numbers: small values behind 0..300 zeros (a digit run is its numeric value however
+    // many digits it is written with), as a component, as a later component and as the revision,
+    // in bounds and in candidates
+    {
+        let mut vals: Vec<String> = vec![];
+        for z in [0usize, 1, 17, 18, 19, 20, 21, 30, 64, 300] {
+            for v in ["0", "1", "2", "10"] {
+                vals.push(format!("{}{}", "0".repeat(z), v));
+            }
+        }
+        let shapes: [&dyn Fn(&str) -> String; 3] = [&|x| x.to_string(), &|x| format!("1.{}", x), &|x| format!("1.0nb{}", x)];
+        let mut pats: Vec<String> = vec![];
+        let mut names: Vec<String> = vec![];
+        for sh in shapes {
+            for x in &vals {
+                names.push(format!("p-{}", sh(x)));
+                for o in OPS.iter() {
+                    pats.push(format!("p{}{}", o.text(), sh(x)));
+                }
+            }
+        }
+        // two bounds of one shape around a padded candidate
+        for sh in shapes {
+            for (lo, hi) in [(&vals[1], &vals[38]), (&vals[21], &vals[2]), (&vals[36], &vals[39])] {
+                for (o1, o2) in [(">=", "<="), (">", "<"), (">=", "<"), (">", "<=")] {
+                    pats.push(format!("p{}{}{}{}", o1, sh(lo), o2, sh(hi)));
+                }
+            }
+        }
+        run.bound(format!("padded numbers: {} patterns (4 values behind 0..300 zeros as component, later component, revision; four operators; 36 two-bound) x {} names", pats.len(), names.len()));
+        par_items(&run, "C02 padded numbers", &pats, |_, p, t| {
+            t.states += 1;
+            t.transitions += names.len() as u64;
+            check_pattern(t, p, &names);
+        });
+    }
     // character sweep: every ASCII and 64 special non-ASCII characters inside the base
     {
         let chars: Vec<char> = mc_core::chars::all().into_iter().filter(|c| !"<>{}".contains(*c)).collect();
